@@ -237,7 +237,7 @@ def run_shard(ctx):
         if fmt == "composeinfo":
             force = ["depth-3", "paths-full", "many-variants", None][(i // 7) % 4]
         if fmt == "treeinfo":
-            force = ["several-platforms", "mixed-case-options", "depth-3", "checksums", "many-variants", "platform-named-like-legacy-section", None][(i // 7) % 7]
+            force = ["several-platforms", "mixed-case-options", "depth-3", "checksums", "many-variants", "platform-named-like-legacy-section", "two-dashed-top-optionals", None][(i // 7) % 8]
         D = formats.gen(fmt, rng, force, hostile=(i % 2 == 0))
         case = {"fmt": fmt, "content_index": i, "D": D}
         dset = []
